@@ -27,13 +27,26 @@ def _term_time(a, n):
     return (ts[-1] if ts else 210) + a.tg
 
 
-@harness(instances=lambda tier: [{"N": n, "exc": e, "falsy": f} for n in ((0, 1, 2) if tier == "quick" else (0, 1, 2, 3)) for e in ("none", "resource", "observable") for f in (0, 1)],
+@harness(instances=lambda tier: [{"N": n, "exc": e, "falsy": f} for n in ((0, 1, 2) if tier == "quick" else (0, 1, 2, 3)) for e in ("none", "resource", "observable", "teardown") for f in (0, 1)],
          v=I(0, 1, n=lambda i: i["N"]), g=I(0, 2, n=lambda i: i["N"]), tg=I(0, 2), term=I(0, 2), D=I(201, 220), timeout=(90, 600))
 def h_using(a, inst):
     n = inst["N"]
     sch = make_scheduler()
     src = sch.create_hot_observable(messages(list(a.v), a.g, a.term, a.tg))
     made = []
+    if inst["exc"] == "teardown":
+        # releasing the inner subscription raises: the resource must still be released exactly once (as finally_action guarantees
+        # for its action), whatever happens to the teardown exception
+        hot, boom = src, Injected("teardown")
+
+        def subscribe(observer, scheduler=None):
+            d = hot.subscribe(observer, scheduler=scheduler)
+
+            def dispose():
+                d.dispose()
+                raise boom
+            return Disposable(dispose)
+        src = reactivex.create(subscribe)
 
     def resource_factory():
         if inst["exc"] == "resource":
@@ -47,9 +60,17 @@ def h_using(a, inst):
             raise F_ERR
         return src
 
+    tt = _term_time(a, n)
+    if inst["exc"] == "teardown":
+        try:
+            sch.start(lambda: reactivex.using(resource_factory, observable_factory), disposed=a.D)
+        except Injected:
+            pass
+        end = min(tt, a.D) if a.term != 0 else a.D
+        cover("ran")
+        return len(made) == 1 and made[0].disposed_at == [end]
     res = sch.start(lambda: reactivex.using(resource_factory, observable_factory), disposed=a.D)
     ev = rec_tuples(res.messages)
-    tt = _term_time(a, n)
     if inst["exc"] == "resource":
         return made == [] and len(ev) == 1 and ev[0][1] == "E" and ev[0][2] is F_ERR
     if len(made) != 1:
@@ -210,7 +231,7 @@ def h_finally_twice(a, inst):
 ENCODED = ["reactivex/observable/using.py", "reactivex/operators/_finallyaction.py", "reactivex/operators/_do.py"]
 BOUNDS = {"quick": "inner timelines of 0..2 (do_action: 0..3) elements, gaps in [0,2], terminal none/completed/error, dispose instant in "
                    "[201,220] (before, at and after the termination instant), exception in the resource factory / observable factory / "
-                   "a do_action callback at its k-th call (k in 1..5), truthy and falsy resources, an upstream whose teardown raises",
+                   "a do_action callback at its k-th call (k in 1..5), truthy and falsy resources, an upstream whose teardown raises (finally_action / do_finally, and using())",
           "thorough": "using / finally_action / do_finally over sources with up to 3 elements; the rest as in the quick tier"}
 ASSUMES = ["Tick/Span time stub", "do_finally is imported from reactivex.operators._do (it is not re-exported); both forms are checked"]
 MANIFEST = {
